@@ -112,6 +112,8 @@ def space(tier):
             ["pre:exp"], grid=(0,))
         add("context alphabet, <=2 nodes, leaves a,b,c", ["a", "b", "c"], U_CTX, B_CTX, 2, ["pre:exp"], grid=(0,))
         add("tiny alphabet, <=3 nodes, leaves a,b,c", ["a", "b", "c"], U_TINY, B_TINY, 3, grid=(0,))
+        add("MultiLinearEinsum, 3 operands, all key orders (vectors), <=1 node", X4.ME3_VEC,
+            ["ptw:exp", "sum", "gauss_d", "ham"], [], 1, grid=(0,))
     else:
         add("full alphabet, <=1 node", L3 + XL, full, c03.BINARY, 1, c03.WRAPPERS)
         add("full alphabet, <=2 nodes, leaves a,b,c", ["a", "b", "c"], full, c03.BINARY, 2, c03.WRAPPERS, grid=(0,))
@@ -121,6 +123,8 @@ def space(tier):
             ["pre:exp"], grid=(0,))
         add("context alphabet, <=3 nodes, leaves a,b,c", ["a", "b", "c"], U_CTX, B_CTX, 3, ["pre:exp"], grid=(0,))
         add("tiny alphabet, <=4 nodes, leaves a,b,c", ["a", "b", "c"], U_TINY, B_TINY, 4, grid=(0,))
+        add("MultiLinearEinsum, 3 operands, all key orders (vectors), <=2 nodes", X4.ME3_VEC,
+            ["ptw:exp", "sum", "gauss_d", "ham"], [], 2, grid=(0,))
     _space_cache[tier] = blocks
     return blocks
 
